@@ -11,6 +11,7 @@ from vf import core, graph, tlaval
 
 META = {
     'property_id': 'C14',
+    'confirm_by_replay': True,   # bin/check re-executes the stimulus of every violation before it is reported
     'level': 'model_checking',
     'technique': 'decision-table transcription in TLA+ (Envelope.tla: checkEnvelope / unmarshalEnvelope / '
                  'UnmarshalReplicationResponse / natsToProtoMessage branch by branch over an abstract byte string) '
